@@ -7,7 +7,8 @@ regenerated from the live source tree into lean/ScrapliModel/Gen/PrivConsts.lean
     deescalate, escalate_auth, share-group key computed from (pattern, not_contains) equality,
     the `"config\\-s" in pattern` flag), sync and asyncio drivers compared
   * default_desired_privilege_level of every platform driver (constructor default)
-  * the shape of every `_abort_config` (AST), sync and asyncio compared
+  * the shape of every `_abort_config`: MEASURED on the live classes (recorders for the channel and the nested send_configs, every
+    level as the belief, every level as default_desired_privilege_level, sync and asyncio); the AST is a cross-check where readable
   * the EOS / NX-OS session level template, recovered by calling `_create_configuration_session`
     on a real driver with marker names
 """
@@ -359,14 +360,7 @@ def _marker(platform):
         spec = abort_spec(platform)
         return spec[1] if spec[0] == "ifSession" else None
     except TranslateError:
-        for rel, cls in ((f"scrapli/driver/core/{platform}/sync_driver.py", CLS[platform]),
-                         (f"scrapli/driver/core/{platform}/async_driver.py", "Async" + CLS[platform])):
-            fn = _method(rel, cls, "_abort_config", required=False)
-            for n in ast.walk(fn) if fn is not None else ():
-                if (isinstance(n, ast.Compare) and len(n.ops) == 1 and isinstance(n.ops[0], ast.In)
-                        and _is_self_attr(n.comparators[0], "_current_priv_level", "pattern") and isinstance(n.left, ast.Constant)):
-                    return n.left.value
-        return None
+        return _marker_ast(platform)
 
 
 def abort_spec_stack(platform, asyncio_):
@@ -519,15 +513,170 @@ def _abort_one(rel, cls):
 
 
 _abort_cache = {}
+_PROBE_SESSION = "probesess"
+
+
+def _marker_ast(platform):
+    """the literal tested against `_current_priv_level.pattern` anywhere in the platform's `_abort_config` (AST walk; None if none)"""
+    for rel, cls in ((f"scrapli/driver/core/{platform}/sync_driver.py", CLS[platform]),
+                     (f"scrapli/driver/core/{platform}/async_driver.py", "Async" + CLS[platform])):
+        fn = _method(rel, cls, "_abort_config", required=False)
+        for n in ast.walk(fn) if fn is not None else ():
+            if (isinstance(n, ast.Compare) and len(n.ops) == 1 and isinstance(n.ops[0], ast.In)
+                    and _is_self_attr(n.comparators[0], "_current_priv_level", "pattern") and isinstance(n.left, ast.Constant)):
+                return n.left.value
+    return None
+
+
+def abort_probe(platform, asyncio_, desired=None):
+    """MEASURE `_abort_config` on the live class: a driver constructed with `default_desired_privilege_level=desired` (None: the
+    constructor's default), one configuration session registered where the platform can, the channel and the nested
+    `send_configs` replaced by recorders.  For every level b of the table taken as the belief:
+        b -> (lines given to channel.send_input, [(configs, privilege_level) of nested send_configs], name the belief has afterwards)"""
+    cls = _drivers(platform)[1 if asyncio_ else 0]
+    kw = {} if desired is None else {"default_desired_privilege_level": desired}
+    d = cls(host="translator", transport="asyncssh" if asyncio_ else "system", **kw)
+    if hasattr(d, "register_configuration_session"):
+        d.register_configuration_session(session_name=_PROBE_SESSION)
+    sent, nested = [], []
+
+    class _Resp:
+        failed = False
+        result = ""
+
+    def _rec_input(*a, **k):
+        sent.append(a[0] if a else k.get("channel_input"))
+        return _Resp()
+
+    def _rec_configs(*a, **k):
+        nested.append((tuple(a[0] if a else k.get("configs")), k.get("privilege_level", "")))
+        return _Resp()
+    if asyncio_:
+        async def rec_input(*a, **k):
+            return _rec_input(*a, **k)
+
+        async def rec_configs(*a, **k):
+            return _rec_configs(*a, **k)
+    else:
+        rec_input, rec_configs = _rec_input, _rec_configs
+
+    class _Chan:
+        send_input = staticmethod(rec_input)
+    d.channel = _Chan()
+    d.send_configs = rec_configs
+    out = {}
+    for b in list(d.privilege_levels):
+        del sent[:], nested[:]
+        d._current_priv_level = d.privilege_levels[b]
+        try:
+            r = d._abort_config()
+            if hasattr(r, "send"):
+                try:
+                    r.send(None)        # the recorders never suspend: the coroutine runs to its end at once
+                    r.close()
+                    raise TranslateError(f"{platform}: the asyncio _abort_config waits for something other than send_input / send_configs")
+                except StopIteration:
+                    pass
+        except TranslateError:
+            raise
+        except Exception as e:  # noqa: BLE001
+            raise TranslateError(f"{platform}: _abort_config raised {e!r} on the recorders (belief {b!r}, desired {desired!r})")
+        out[b] = (tuple(sent), tuple(nested), d._current_priv_level.name)
+    return out, {k: l.pattern for k, l in d.privilege_levels.items()}
+
+
+def _spec_of_probe(platform, probe, patterns):
+    """one of the modelled shapes that explains a measurement, else TranslateError"""
+    where = f"{platform}: measured _abort_config"
+    levels = list(probe)
+    if all(v == ((), (), b) for b, v in probe.items()):
+        return ("none",)
+    acts = {b: v for b, v in probe.items() if v != ((), (), b)}
+    if any(len(v[0]) + len(v[1]) != 1 for v in acts.values()):
+        raise TranslateError(f"{where}: not exactly one send_input / send_configs where it acts: {acts}")
+    after = {v[2] for v in acts.values()}
+    if len(after) != 1:
+        raise TranslateError(f"{where}: the belief after the abort depends on the belief before: { {b: v[2] for b, v in acts.items()} }")
+    lvl = after.pop()
+    if all(v[0] for v in acts.values()):
+        cmds = {v[0][0] for v in acts.values()}
+        if len(cmds) != 1 or not isinstance(next(iter(cmds)), str):
+            raise TranslateError(f"{where}: abort line depends on the belief: {cmds}")
+        cmd = cmds.pop()
+        if len(acts) == len(levels):
+            return ("always", cmd, lvl)
+        marker = _marker_ast(platform) or SESSION_MARKER_DEFAULT
+        if {b for b in levels if marker in patterns[b]} != set(acts):
+            raise TranslateError(f"{where}: acts exactly in {sorted(acts)}, which is not the set of levels whose pattern contains {marker!r}")
+        return ("ifSession", marker, cmd, lvl)
+    if len(acts) != len(levels) or not all(v[1] for v in acts.values()):
+        raise TranslateError(f"{where}: mixed send_input / send_configs: {acts}")
+    lines = {v[1][0][0] for v in acts.values()}
+    if len(lines) != 1:
+        raise TranslateError(f"{where}: nested configs depend on the belief")
+    arg = {b: v[1][0][1] for b, v in acts.items()}
+    if all(a == "" for a in arg.values()):
+        larg = ("default",)
+    elif all(a == b for b, a in arg.items()):
+        larg = ("current",)
+    else:
+        own = [b for b, a in arg.items() if a == b]
+        if any(a != "" for b, a in arg.items() if b not in own) or not own:
+            raise TranslateError(f"{where}: privilege_level of the nested send_configs not recognised: {arg}")
+        import os.path
+        pre = os.path.commonprefix(own)
+        if any(b.startswith(pre) for b in levels if b not in own):
+            pre = ""
+        if not pre:
+            raise TranslateError(f"{where}: the levels passed on to the nested send_configs are not those with a common name prefix: {own}")
+        # which prefix separates these levels is not determined by a measurement (see `_same_shape`)
+        larg = ("currentIfPrefix", pre)
+    return ("viaConfigs", tuple(lines.pop()), larg, lvl)
+
+
+def _same_shape(a, b, levels):
+    """two specs equal up to what no measurement can tell apart (the prefix of currentIfPrefix: same set of table levels selected)"""
+    if a == b:
+        return True
+    if a[0] == b[0] == "viaConfigs" and a[1] == b[1] and a[3] == b[3] and a[2][0] == b[2][0] == "currentIfPrefix":
+        return {x for x in levels if x.startswith(a[2][1])} == {x for x in levels if x.startswith(b[2][1])}
+    return False
+
+
+def abort_measured(platform, desired=None):
+    """the abort shape measured under one value of default_desired_privilege_level (both stacks must agree)"""
+    specs = []
+    for asyncio_ in (False, True):
+        probe, patterns = abort_probe(platform, asyncio_, desired)
+        specs.append(_spec_of_probe(platform, probe, patterns))
+    if specs[0] != specs[1]:
+        raise TranslateError(f"{platform}: measured sync and asyncio _abort_config differ: {specs[0]} vs {specs[1]}")
+    return specs[0]
 
 
 def abort_spec(platform):
+    """The abort shape is MEASURED on the live classes, for the constructor's default and for every level of the table as
+    `default_desired_privilege_level` (a public constructor argument): it must not depend on it.  The AST is a cross-check only
+    where it has one of the familiar shapes."""
     if platform not in _abort_cache:
-        s = _abort_one(f"scrapli/driver/core/{platform}/sync_driver.py", CLS[platform])
-        a = _abort_one(f"scrapli/driver/core/{platform}/async_driver.py", "Async" + CLS[platform])
-        if s != a:
-            raise TranslateError(f"{platform}: sync and asyncio _abort_config differ: {s} vs {a}")
-        _abort_cache[platform] = s
+        levels = list(_construct(_drivers(platform)[0], False).privilege_levels)
+        meas = {d: abort_measured(platform, d) for d in [None] + levels}
+        if len(set(meas.values())) != 1:
+            dep = {str(d): m for d, m in meas.items() if m != meas[None]}
+            raise TranslateError(f"{platform}: _abort_config depends on default_desired_privilege_level: default {meas[None]}, but {dep}")
+        spec = meas[None]
+        ast_specs = []
+        for rel, cls in ((f"scrapli/driver/core/{platform}/sync_driver.py", CLS[platform]),
+                         (f"scrapli/driver/core/{platform}/async_driver.py", "Async" + CLS[platform])):
+            try:
+                ast_specs.append(_abort_one(rel, cls))
+            except TranslateError:
+                ast_specs.append(None)      # not a shape the AST reader knows: the measurement stands alone
+        for a in ast_specs:
+            if a is not None and not _same_shape(a, spec, levels):
+                raise TranslateError(f"{platform}: _abort_config read from the AST {a} differs from the measured behaviour {spec}")
+        known = [a for a in ast_specs if a is not None]
+        _abort_cache[platform] = known[0] if known else spec
     return _abort_cache[platform]
 
 
